@@ -23,8 +23,8 @@ import time
 
 VERIF = os.path.dirname(os.path.dirname(os.path.dirname(os.path.abspath(__file__))))
 KNOWN_FILE = os.path.join(VERIF, "known_findings.json")
-EVIDENCE_DIR = os.path.join(VERIF, "evidence")
-REPLAY_DIR = os.path.join(VERIF, "replays")
+EVIDENCE_DIR = os.environ.get("RV_EVIDENCE_DIR") or os.path.join(VERIF, "evidence")
+REPLAY_DIR = os.environ.get("RV_REPLAY_DIR") or os.path.join(VERIF, "replays")
 
 
 def h(obj):
@@ -194,7 +194,7 @@ def finish(ctx, mod):
                 json.dump(dict(property=ctx.prop, tier=ctx.tier, seed=ctx.seed, key=v["key"], what=v["what"],
                                witness=v["witness"], count=v["count"]), f, indent=1)
             print("violation key=%s count=%d: %s" % (v["key"], v["count"], v["what"]))
-            print("VIOLATION property=%s replay=%s" % (ctx.prop, os.path.relpath(path, VERIF)))
+            print("VIOLATION property=%s replay=%s" % (ctx.prop, os.path.relpath(path, VERIF) if path.startswith(VERIF) else path))
         print("FAIL " + summary)
         return 1
     if ctx.inconclusive_reasons:
